@@ -131,6 +131,9 @@ ALL = [
        classes=['A', 'B'], priorities={'A': 0, 'B': 1}, prio_preempt=[False, 'resume'], qcap=[INF, 0], tracker='NaiveBlocking', T=40.0),
     mk('K19_reroute_back_into_the_rerouting_node', [I(1)], {'A': [seq(2.0, 1000)], 'B': [seq(1.0, 1000)]}, {'A': [det(2)], 'B': [det(5)]},
        {'A': TM([[0.0]]), 'B': TM([[1.0]])}, classes=['A', 'B'], priorities={'A': 0, 'B': 1}, prio_preempt=['reroute'], tracker='NodePopulation', T=20.0),
+    # thousands of cycles of a timetable whose dates are not exactly representable: boundary dates must not drift (C12)
+    mk('long_nondyadic_schedule', [SCH([1, 0], [0.7, 1.1], preempt='resume', offset=0.3)], [det(37.3)], [det(0.9)], TM([[0.0]]), T=2500.0),
+    mk('long_nondyadic_slots', [SLOT([0.7, 1.1], [1, 1], offset=0.3)], [det(41.7)], [det(0.2)], TM([[0.0]]), T=2500.0),
     # stop by customer count
     mk('count_complete_with_reneging', [I(1)], [det(1.0)], [det(2.5)], TM([[0.0]]), reneging={'C0': [det(2.0)]}, run={'method': 'customers', 'n': 6, 'cmethod': 'Complete', 'T': 0}),
     # an arrival stream that ends (an infinite inter-arrival time): the count is reached only by the very last customer in the system
